@@ -59,6 +59,7 @@ type BatchSpec struct {
 	EED     string      `json:"eed"`
 	ODFI    string      `json:"odfi"`
 	Rest    int         `json:"rest"` // marker stored in CompanyDiscretionaryData (not compared by Equal)
+	Prefix  string      `json:"prefix,omitempty"` // trace number prefix when it is not the ODFI (file with BypassOriginValidation)
 	Entries []EntrySpec `json:"entries"`
 }
 
@@ -68,10 +69,11 @@ type FileSpec struct {
 	HID     int         `json:"hid"` // marker stored in ImmediateOriginName
 	Batches []BatchSpec `json:"batches"`
 	Ref     int         `json:"ref"` // >= 0: the very same *File as files[Ref] (repeated file)
+	Bypass  bool        `json:"bypass,omitempty"` // the file carries ValidateOpts{BypassOriginValidation: true}
 }
 
 // GenSpec describes a file list drawn from the shared generator internal/gen (all standard
-// SEC codes, forward entries, optional addenda); it is rebuilt from the seed on replay.
+// SEC codes, forward / return / NOC batches, optional addenda); it is rebuilt from the seed on replay.
 type GenSpec struct {
 	Seed   uint64 `json:"seed"`
 	N      int    `json:"n"`
@@ -94,7 +96,12 @@ func (c Case) resolve(i int) FileSpec {
 	return f
 }
 
-func traceOf(b BatchSpec, e EntrySpec) string { return fmt.Sprintf("%s%07d", b.ODFI, e.Seq) }
+func traceOf(b BatchSpec, e EntrySpec) string {
+	if b.Prefix != "" {
+		return fmt.Sprintf("%s%07d", b.Prefix, e.Seq)
+	}
+	return fmt.Sprintf("%s%07d", b.ODFI, e.Seq)
+}
 
 // ---------------------------------------------------------------- building real files
 
@@ -128,7 +135,7 @@ func buildEntry(b BatchSpec, e EntrySpec) *ach.EntryDetail {
 	return ed
 }
 
-func buildBatch(b BatchSpec) (ach.Batcher, error) {
+func buildBatch(b BatchSpec, opts *ach.ValidateOpts) (ach.Batcher, error) {
 	bh := ach.NewBatchHeader()
 	bh.ServiceClassCode = b.SCC
 	bh.CompanyName = b.Name
@@ -141,6 +148,9 @@ func buildBatch(b BatchSpec) (ach.Batcher, error) {
 	bt, err := ach.NewBatch(bh)
 	if err != nil {
 		return nil, err
+	}
+	if opts != nil {
+		bt.SetValidation(opts)
 	}
 	for _, e := range b.Entries {
 		bt.AddEntry(buildEntry(b, e))
@@ -159,8 +169,13 @@ func buildFile(fsp FileSpec) (*ach.File, error) {
 	f.Header.FileCreationTime = "1055"
 	f.Header.ImmediateDestinationName = "Federal Reserve Bank"
 	f.Header.ImmediateOriginName = fmt.Sprintf("ORIGIN %d", fsp.HID)
+	var opts *ach.ValidateOpts
+	if fsp.Bypass {
+		opts = &ach.ValidateOpts{BypassOriginValidation: true}
+		f.SetValidation(opts)
+	}
 	for _, b := range fsp.Batches {
-		bt, err := buildBatch(b)
+		bt, err := buildBatch(b, opts)
 		if err != nil {
 			return nil, err
 		}
@@ -202,7 +217,7 @@ func buildGenFiles(g GenSpec) (fs []*ach.File, err error) {
 		}
 	}()
 	r := rng.New(g.Seed)
-	o := gen.Opts{ForwardOnly: true, Addenda: true, MaxBatches: 3, MaxEntries: 4}
+	o := gen.Opts{Returns: true, NOC: true, Addenda: true, MaxBatches: 3, MaxEntries: 4}
 	for i := 0; i < g.N; i++ {
 		switch {
 		case i > 0 && r.Chance(1, 6):
@@ -321,6 +336,7 @@ type genOpts struct {
 	maxEntries int
 	seqPool    int
 	bigAmounts bool
+	bypass     bool // some files carry ValidateOpts{BypassOriginValidation} and foreign trace prefixes
 }
 
 func baseHeaderSpec(r *rng.R) BatchSpec {
@@ -444,7 +460,7 @@ func genFiles(r *rng.R, o genOpts) []FileSpec {
 			}
 		}
 		rt := routes[r.Intn(nroutes)]
-		f := FileSpec{Origin: rt[0], Dest: rt[1], HID: nextHID, Ref: -1}
+		f := FileSpec{Origin: rt[0], Dest: rt[1], HID: nextHID, Ref: -1, Bypass: o.bypass && r.Chance(1, 3)}
 		nextHID++
 		nb := r.Range(1, o.maxBatches)
 		for j := 0; j < nb; j++ {
@@ -454,6 +470,9 @@ func genFiles(r *rng.R, o genOpts) []FileSpec {
 			}
 			h.Rest = nextRest
 			nextRest++
+			if f.Bypass {
+				h.Prefix = "99999999" // trace numbers of a foreign ODFI, admitted by BypassOriginValidation
+			}
 			h.Entries = genEntries(r, h, o, &nextID)
 			f.Batches = append(f.Batches, h)
 		}
@@ -594,6 +613,7 @@ func corr(args []string) {
 		if i%25 == 24 {
 			o.bigAmounts = true
 		}
+		o.bypass = i%4 == 3
 		c := Case{Files: genFiles(r, o)}
 		for _, k := range sweep(r, c, *per) {
 			emit(k)
@@ -643,8 +663,17 @@ func coreOf(e *ach.EntryDetail) string {
 	if e.Addenda98 != nil {
 		fmt.Fprintf(&b, "|98:%s", e.Addenda98.String())
 	}
+	if e.Addenda98Refused != nil {
+		fmt.Fprintf(&b, "|98R:%s", e.Addenda98Refused.String())
+	}
 	if e.Addenda99 != nil {
 		fmt.Fprintf(&b, "|99:%s", e.Addenda99.String())
+	}
+	if e.Addenda99Dishonored != nil {
+		fmt.Fprintf(&b, "|99D:%s", e.Addenda99Dishonored.String())
+	}
+	if e.Addenda99Contested != nil {
+		fmt.Fprintf(&b, "|99C:%s", e.Addenda99Contested.String())
 	}
 	return b.String()
 }
@@ -951,7 +980,7 @@ func oracle(args []string) {
 		b, _ := json.Marshal(v)
 		res.Printf("%s\n", b)
 	}
-	rule := "a case = list of valid files (PPD/CCD/CTX batches built with the public constructors, 0..3 Addenda05 per entry, repeated and copied files, headers differing in one compared field, small trace pool so traces collide, 1..3 routing pairs) x Conditions swept over every entry/batch boundary of the unlimited merge (b-1,b,b+1); plus lists of files from internal/gen (all standard SEC codes, forward, optional addenda, repeated/cloned files); non-trivial = at least two input entries; distinct by (file list, conditions)"
+	rule := "a case = list of valid files (PPD/CCD/CTX batches built with the public constructors, 0..3 Addenda05 per entry, repeated and copied files, headers differing in one compared field, small trace pool so traces collide, 1..3 routing pairs) x Conditions swept over every entry/batch boundary of the unlimited merge (b-1,b,b+1); plus lists of files from internal/gen (all standard SEC codes, forward/return/NOC batches, optional addenda, repeated/cloned files); non-trivial = at least two input entries; distinct by (file list, conditions)"
 	sum := summary{Kind: "summary", Dist: map[string]int{}, Rule: rule}
 	seen := map[string]bool{}
 	var st stats
@@ -1009,6 +1038,7 @@ func oracle(args []string) {
 		if i%25 == 24 {
 			o.bigAmounts = true
 		}
+		o.bypass = i%4 == 3
 		c := Case{Files: genFiles(r, o)}
 		for _, k := range sweep(r, c, *per) {
 			run(k)
